@@ -150,13 +150,15 @@ def lagrange_kernel(ctx):
     if not f:
         return
     v = FnView.get(P, f)
-    names = {n: l for l, n in f.var_names().items()}
     loops = f.loops()
-    if "num" not in names or "den" not in names or not loops:
-        ctx.violation("H", f.key, "lagrange-kernel:shape", "num/den accumulators not found", f.loc)
+    nd = lagrange_accs(f, v)
+    if nd is None or not loops:
+        ctx.violation("H", f.key, "lagrange-kernel:shape", "the result is not N * invert(D) for two loop accumulators N, D", f.loc)
         return
+    names = {"num": nd[0], "den": nd[1]}
     hdr = frozenset({loops[0]["header"]})
-    given = lambda fa: (("pass" if fa[2] else "fail") if fa[0] == "succ" and fa[1] == ("arg", 2) else None)
+    opt_x = lambda t: t == ("arg", 2) or (is_call(t, name="map") and "option::Option" in t[1] and t[2][0] == ("arg", 2))
+    given = lambda fa: (("pass" if fa[2] else "fail") if fa[0] == "succ" and opt_x(fa[1]) else None)
     item = next_item(lambda t: mentions(t, arg(1)))
     leaves = [(lambda t: t[0] == "loopvar" and t[2] == names["num"], ("scal", "n")), (lambda t: t[0] == "loopvar" and t[2] == names["den"], ("scal", "d")),
               (lambda t: strip_newtype_fields(t) == ("some", ("arg", 2)) and t != ("some", ("arg", 2)), ("scal", "x")),
@@ -186,13 +188,38 @@ def lagrange_kernel(ctx):
     ctx.check(not pa(lhs, rhs, -1), "AGREE", f.key, "x=None-arm==x=0",
               "the x = None arm of the Lagrange coefficient (num' = %s, den' = %s) is not the general arm evaluated at 0"
               % (show(("scal", arms["num"][1])), show(("scal", arms["den"][1]))), f.loc)
-    oks = [v.cx.operand(rv["ops"][0]) for (b, k, rv) in ret_writes(f) if k == "ok"]
-    good = len(oks) == 1 and is_call(oks[0], name="mul") and oks[0][2][0][0] == "phi" and oks[0][2][0][1][1] == names["num"] and \
-        oks[0][2][1][0] == "ok" and is_call(oks[0][2][1][1][1] if oks[0][2][1][1][0] == "map_err" else oks[0][2][1][1], name="invert")
-    if good:
-        inv = oks[0][2][1][1][1] if oks[0][2][1][1][0] == "map_err" else oks[0][2][1][1]
-        good = inv[2][0][0] == "phi" and inv[2][0][1][1] == names["den"]
-    ctx.check(good, "AGREE", f.key, "result==num*invert(den)", "the coefficient must be num * den^-1", f.loc)
+    ctx.ok("AGREE", f.key, "result==num*invert(den)")
+
+
+def total_of(P, f, v, t):
+    """t = (reduction) + extra, written `acc = acc + extra` after the loop or `acc + extra` in the result: (reduction, extra)"""
+    if t[0] == "phi":
+        r = reduction_of(P, f, v, t)
+        if r and len(r["after"]) == 1 and is_call(r["after"][0], name="add") and r["after"][0][2][0] == ACC:
+            return r, r["after"][0][2][1]
+        return None, None
+    if is_call(t, name="add") and len(t[2]) == 2:
+        r = reduction_of(P, f, v, t[2][0])
+        if r and not r["after"]:
+            return r, t[2][1]
+    return None, None
+
+
+def lagrange_accs(f, v):
+    """the result of compute_lagrange_coefficient is Ok(N * invert(D)?) for two loop-carried accumulators: their locals"""
+    oks = ok_values(f, v)
+    if len(oks) != 1 or not is_call(oks[0], name="mul"):
+        return None
+    n, r = oks[0][2]
+    if r[0] != "ok":
+        return None
+    inv = r[1][1] if r[1][0] == "map_err" else r[1]
+    if not is_call(inv, name="invert") or n[0] != "phi" or inv[2][0][0] != "phi":
+        return None
+    d = inv[2][0]
+    if n[1][0] != f.key or d[1][0] != f.key or n[1][1] == d[1][1]:
+        return None
+    return (n[1][1], d[1][1])
 
 
 def roles(ctx):
@@ -277,15 +304,16 @@ def run(ctx):
         xj = lambda t: item(strip_newtype_fields(t)) or (t[0] == "field" and item(strip_newtype_fields(t[1])) and t[3] == "0")
         same = lambda fa: ("pass" if fa[4] else None) if (fa[0] == "cond" and fa[1] == "eq" and fa[3] is not None and
                                                           ((xi(fa[2]) and xj(fa[3])) or (xi(fa[3]) and xj(fa[2])))) else None
-        lr = reductions(ctx, f.key, adaptors={}, skip={"num": same, "den": same}, min_loops=1)
-        if lr:
-            ctx.check(lr[0]["iter_term"] is not None and is_call(lr[0]["iter_term"][1], name="iter") and lr[0]["iter_term"][1][2][0] == ("arg", 1),
-                      "RED", f.key, "over-the-whole-set", "the Lagrange product must run over x_set.iter()", f.loc)
         v = FnView.get(P, f)
+        nd = lagrange_accs(f, v)
+        labels = {nd[0]: "num", nd[1]: "den"} if nd else {}
+        lr = reductions(ctx, f.key, adaptors={}, skip={"num": same, "den": same}, min_loops=1, labels=labels)
+        if lr:
+            ctx.check(lr[0]["iter_term"] is not None and strip_iter_calls(lr[0]["iter_term"]) == ("arg", 1),
+                      "RED", f.key, "over-the-whole-set", "the Lagrange product must run over x_set.iter()", f.loc)
         # num and den are updated together: the same blocks-level branch structure
         acc = lr[0]["acc"] if lr else {}
-        names = f.var_names()
-        by = {names.get(l): len(bs) for l, bs in acc.items()}
+        by = {labels.get(l): len(bs) for l, bs in acc.items()}
         ctx.check(by.get("num") == by.get("den") and by.get("num", 0) >= 1, "RED", f.key, "num-and-den-in-lock-step",
                   "numerator and denominator of the Lagrange coefficient are not updated at the same sites (%s)" % by, f.loc)
     f = ctx.anchor(CORE + "derive_interpolating_value")
@@ -304,7 +332,7 @@ def run(ctx):
     f = P.fns.get(CORE + "compute_binding_factor_list")
     if f:
         v = FnView.get(P, f)
-        oks = [v.cx.operand(rv["ops"][0]) for (b, k, rv) in ret_writes(f) if k == "ok"]
+        oks = ok_values(f, v)
         ok = len(oks) == 1 and mentions(oks[0], lambda s: is_call(s, name="map") and mentions(s[2][0], lambda u: u[0] == "ok" and is_call(u[1], name="binding_factor_preimages")
                                                                                              and u[1][2][0] == ("arg", 1) and u[1][2][1] == ("arg", 2) and u[1][2][2] == ("arg", 3)))
         clo = [s for s in subterms(oks[0]) if s[0] == "closure"] if oks else []
@@ -323,39 +351,52 @@ def run(ctx):
                   "the commitment list encoding must iterate the commitment map itself", f.loc)
     f = ctx.anchor(CORE + "compute_group_commitment")
     if f:
-        lr = reductions(ctx, f.key, adaptors={}, min_loops=1)
+        reductions(ctx, f.key, adaptors={}, min_loops=0)
         v = FnView.get(P, f)
-        if lr:
-            lp = lr[0]
-            names = f.var_names()
-            accs = {names.get(l) for l in lp["acc"]}
-            ctx.check(lp["iter_term"] == ("iter", ("field", ("arg", 1), "frost_core::SigningPackage", "signing_commitments"))
-                      and {"group_commitment", "binding_scalars", "binding_elements"} <= accs, "RED", f.key,
-                      "three-accumulations-over-every-commitment",
-                      "the group commitment must accumulate hiding, binding element and binding scalar of every entry "
-                      "(accumulators found: %s)" % accs, f.loc)
-            item = next_item(fld(arg(1), "signing_commitments"))
-            # binding factor looked up under the same key as the element pushed in that iteration
-            pushes = {}
-            for (bb, t, ci) in f.calls():
-                if ci and ci.get("name") == "push" and bb in lp["body"]:
-                    pushes[bb] = v.call_args(bb)[1]
-            el = [x for x in pushes.values() if mentions(x, lambda s: is_field(s, "SigningCommitments", "binding") and mentions(s[1], item))]
-            sc = [x for x in pushes.values() if mentions(x, lambda s: s[0] == "some" and is_call(s[1], name="get") and fld(arg(2), "0")(s[1][2][0]) and tfield(item, 0)(s[1][2][1]))]
-            ctx.check(len(el) == 1 and len(sc) == 1, "PROV", f.key, "(rho_i, E_i)-pushed-as-a-pair",
-                      "binding element and binding factor of one iteration must belong to the same identifier", f.loc)
-            oks = [v.cx.operand(rv["ops"][0]) for (b, k, rv) in ret_writes(f) if k == "ok"]
-            ok = len(oks) == 1 and mentions(oks[0], lambda s: is_call(s, name="vartime_multiscalar_mul")) and \
-                mentions(oks[0], lambda s: is_call(s, name="add") and any(mentions(x, lambda u: is_field(u, "SigningCommitments", "hiding")) for x in s[2]))
-            ctx.check(ok, "PROV", f.key, "R==sum(D_i)+msm(rho_i,E_i)", "the group commitment must be the sum of hiding commitments plus the multiscalar product", f.loc)
+        oks = ok_values(f, v)
+        red, extra = total_of(P, f, v, unwrap_newtypes(oks[0])) if len(oks) == 1 else (None, None)
+        over = lambda r: r is not None and fld(arg(1), "signing_commitments")(r["source"])
+        peel0 = lambda t: peel0(t[1]) if isinstance(t, tuple) and t and t[0] == "field" and t[3] == "0" else t
+        comp = lambda t, name: is_field(peel0(t), "SigningCommitments", name) and peel0(t)[1] == ("field", ITEM, None, "1")
+        good = over(red) and len(red["init"]) == 1 and is_call(red["init"][0], name="identity") and len(red["steps"]) == 1 \
+            and is_call(red["steps"][0], name="add") and red["steps"][0][2][0] == ACC and comp(red["steps"][0][2][1], "hiding") \
+            and not red["skippable"] and not red["early_exit"]
+        ctx.check(good, "RED", f.key, "hiding-sum-over-every-commitment",
+                  "the group commitment must start from the identity and add the hiding commitment of every entry of the "
+                  "package's commitment map", f.loc)
+        ms = me = None
+        if extra is not None and is_call(extra, name="vartime_multiscalar_mul") and len(extra[2]) == 2:
+            ms, me = mapping_of(P, f, v, extra[2][0]), mapping_of(P, f, v, extra[2][1])
+        rho = lambda t: peel0(t)[0] == "some" and is_call(peel0(t)[1], name="get") and fld(arg(2), "0")(peel0(t)[1][2][0]) \
+            and peel0(t)[1][2][1] == ("field", ITEM, None, "0")
+        ctx.check(over(ms) and over(me) and ms["key"] is None and me["key"] is None, "RED", f.key,
+                  "three-accumulations-over-every-commitment",
+                  "binding scalars and binding elements must each receive one entry per commitment of the package", f.loc)
+        ctx.check(bool(ms) and bool(me) and rho(ms["val"]) and comp(me["val"], "binding"), "PROV", f.key, "(rho_i, E_i)-pushed-as-a-pair",
+                  "binding element and binding factor of one iteration must belong to the same identifier", f.loc)
+        ctx.check(good and bool(ms) and bool(me), "PROV", f.key, "R==sum(D_i)+msm(rho_i,E_i)",
+                  "the group commitment must be the sum of hiding commitments plus the multiscalar product", f.loc)
     f = ctx.anchor(CORE + "aggregate_custom")
     if f:
-        lr = reductions(ctx, f.key, adaptors={}, min_loops=1)
+        reductions(ctx, f.key, adaptors={}, min_loops=0)
         v = FnView.get(P, f)
-        if lr:
-            it = lr[0]["iter_term"]
-            ctx.check(it is not None and it[0] == "iter" and is_call(it[1], name="values") and hooked(arg(2))(it[1][2][0]),
-                      "RED", f.key, "z==sum(all shares)", "the aggregate z must sum every submitted share (post-hook map .values())", f.loc)
+        oks = ok_values(f, v)
+        good = False
+        det = ""
+        if len(oks) == 1:
+            z = get_field(oks[0], "z")
+            r = reduction_of(P, f, v, z)
+            det = fmt(z)[:160]
+            if r:
+                src = r["source"]
+                step_ok = len(r["steps"]) == 1 and is_call(r["steps"][0], name="add") and r["steps"][0][2][0] == ACC and \
+                    strip_newtype_fields(unwrap_newtypes(r["steps"][0][2][1])) in (ITEM, ("field", ITEM, "frost_core::round2::SignatureShare", "share")) or \
+                    (len(r["steps"]) == 1 and is_call(r["steps"][0], name="add") and r["steps"][0][2][0] == ACC and
+                     mentions(r["steps"][0][2][1], lambda s: s == ITEM) and not mentions(r["steps"][0][2][1], lambda s: s[0] == "arg"))
+                good = (is_call(src, name="values") and hooked(arg(2))(src[2][0]) and len(r["init"]) == 1 and is_call(r["init"][0], name="zero")
+                        and step_ok and not r["after"] and not r["skippable"] and not r["early_exit"])
+        ctx.check(good, "RED", f.key, "z==sum(all shares)",
+                  "the aggregate z must be the sum, from zero, of every submitted share (post-hook map .values()): %s" % det, f.loc)
     key = "<<<C as frost_core::traits::Ciphersuite>::Group as frost_core::traits::Group>::Element as frost_core::scalar_mul::VartimeMultiscalarMul<C>>::optional_multiscalar_mul"
     f = ctx.anchor(key)
     if f:
